@@ -308,3 +308,16 @@ Theorem C16_f64_hpf_step_is_rounded_step : forall alpha o xi x : Floats.PrimFloa
   snd (hpf_iter F64_ops alpha (o, xi) x) = x.
 Proof. exact f64_hpf_iter_refines. Qed.
 Print Assumptions C16_f64_hpf_step_is_rounded_step.
+
+(* the high-pass run of ANY length: as long as the rounded-real outputs stay within 2^1021 in magnitude (the overflow guard,
+   stated on the real side), the float run is the rounded-real run and every float output is finite *)
+Theorem C16_f64_hpf_run_is_rounded_run : forall alpha : Floats.PrimFloat.float,
+  ffinite alpha = true -> 0 <= f2r alpha <= 1 ->
+  forall (xs : list Floats.PrimFloat.float) (o xi : Floats.PrimFloat.float),
+  (ffinite o = true /\ Rabs (f2r o) <= bpow radix2 1021) -> (ffinite xi = true /\ Rabs (f2r xi) <= bpow radix2 1021) ->
+  List.Forall (fun x => ffinite x = true /\ Rabs (f2r x) <= bpow radix2 1021) xs ->
+  List.Forall (fun y => Rabs y <= bpow radix2 1021) (hpf_run (Rnd_ops rnd64) (f2r alpha) (f2r o, f2r xi) (map f2r xs)) ->
+  map f2r (hpf_run F64_ops alpha (o, xi) xs) = hpf_run (Rnd_ops rnd64) (f2r alpha) (f2r o, f2r xi) (map f2r xs) /\
+  List.Forall (fun y => ffinite y = true) (hpf_run F64_ops alpha (o, xi) xs).
+Proof. exact f64_hpf_run_values. Qed.
+Print Assumptions C16_f64_hpf_run_is_rounded_run.
